@@ -94,10 +94,10 @@ void Arena::reset(ResetPolicy reset_policy) noexcept {
     ManagedBlock* current = first;
 
     if (first == &_arena_zero_block) {
-      return;
+      // No managed block to free, but dynamic blocks (released below) may exist.
+      current = nullptr;
     }
-
-    if (has_static_block()) {
+    else if (has_static_block()) {
       current = current->next;
       first->next = nullptr;
     }
